@@ -2,7 +2,7 @@
    Standard extraction libraries only; no hand-written Extract Constant. *)
 From Coq Require Import Extraction ExtrOcamlBasic ExtrOCamlFloats ExtrOCamlInt63.
 From Coq Require Import ZArith List Floats.
-From SV Require Import Base.Num Base.Outcome Base.Str Model.Expr Extract.Keep.
+From SV Require Import Base.Num Base.Outcome Base.Str Model.Expr Model.RefExpr Extract.Keep.
 Extraction Language OCaml.
 
 Definition f_lexer := @lexer float FNum.
@@ -12,7 +12,8 @@ Definition f_fold := @fold_operations float FNum.
 Definition f_parser := @parser float FNum.
 Definition f_display := @display float fmt_float.
 Definition f_reread := @reread float FNum fmt_float.
+Definition f_ref_read := @ref_read float.          (* the reference reader, cross-checked against the oracle's *)
 
 Extraction "model.ml"
   keep_N_add keep_Z_div keep_Z_modulo keep_Z_opp keep_Z_mul keep_Z_add
-  f_lexer f_implied_mul f_parse_unfolded f_fold f_parser f_display f_reread.
+  f_lexer f_implied_mul f_parse_unfolded f_fold f_parser f_display f_reread f_ref_read.
